@@ -129,8 +129,12 @@ def excel_rows(source_path, sheet=1):
     assert sheet >= 1, "sheet=%r" % sheet
 
     location = errors.Location(source_path, has_cell=True)
+    # Read the file here so possible errors from the environment (missing file, lacking access rights) can be
+    # told apart from errors xlrd runs into when parsing a broken file, which can be EnvironmentErrors too.
+    with io.open(source_path, "rb") as source_file:
+        source_content = source_file.read()
     try:
-        with xlrd.open_workbook(source_path) as book:
+        with xlrd.open_workbook(source_path, file_contents=source_content) as book:
             if book.nsheets < sheet:
                 raise errors.DataFormatError(
                     "Excel file must contain at least %d sheet(s) instead of just %d" % (sheet, book.nsheets), location
@@ -144,7 +148,7 @@ def excel_rows(source_path, sheet=1):
                     location.advance_cell()
                 yield row
                 location.advance_line()
-    except (errors.DataFormatError, EnvironmentError):
+    except errors.DataFormatError:
         raise
     except UnicodeError as error:
         raise errors.DataFormatError("cannot decode Excel data: %s" % error, location)
